@@ -67,6 +67,10 @@ pub struct MonState {
     pub thread_pending:  Vec<usize>,
     pub max_opgas_before: usize,
     pub max_opgas_at:    u32,
+    pub lim_gas:         usize,
+    pub thread_last_ip:  Vec<u32>,
+    pub thread_over:     Vec<bool>,
+    pub oog_expected:    Vec<u32>,
     pub stop_site:       Option<&'static str>,
     pub stop_instance_alive: bool,
     pub polls_after_stop_same_instance: u64,
@@ -133,6 +137,10 @@ impl MonState {
             thread_pending: vec![0],
             max_opgas_before: 0,
             max_opgas_at: 0,
+            lim_gas: usize::MAX,
+            thread_last_ip: vec![0],
+            thread_over: vec![false],
+            oog_expected: Vec::new(),
             stop_site: None,
             stop_instance_alive: false,
             polls_after_stop_same_instance: 0,
@@ -234,6 +242,7 @@ impl MonState {
             "culled": self.culled,
             "culled_dups": self.culled_dups.iter().map(|(id, a, b)| json!([id, a, b])).collect::<Vec<_>>(),
             "culled_under": self.culled_under.iter().map(|(ip, n, l)| json!([ip, n, l])).collect::<Vec<_>>(),
+            "oog_expected": self.oog_expected,
             "max_opgas_before": self.max_opgas_before,
             "max_opgas_at": self.max_opgas_at,
             "retire_gas": self.retire_gas.iter().map(|(ip, g)| json!([ip, g])).collect::<Vec<_>>(),
@@ -324,6 +333,16 @@ impl Monitor for DriverMonitor {
                         s.max_opgas_before = done;
                         s.max_opgas_at = ip;
                     }
+                    // the instruction executed just before this one took the path over the gas limit: the thread
+                    // was due to be retired there, with a gas error located at that instruction
+                    if done > s.lim_gas && !s.thread_over[ti] {
+                        s.thread_over[ti] = true;
+                        let at = s.thread_last_ip[ti];
+                        if s.oog_expected.len() < 1000 {
+                            s.oog_expected.push(at);
+                        }
+                    }
+                    s.thread_last_ip[ti] = ip;
                 }
                 let t = s.thread_now;
                 s.tr(|| format!("S{t}:{ip}:{gas}:{visits}"));
@@ -401,6 +420,8 @@ impl Monitor for DriverMonitor {
                 let op_inherited = s.thread_opgas.get(parent).copied().unwrap_or(0);
                 s.thread_opgas.push(op_inherited);
                 s.thread_pending.push(0);
+                s.thread_last_ip.push(from);
+                s.thread_over.push(false);
                 *s.forks_to.entry(to).or_insert(0) += 1;
                 s.tr(|| format!("F{from}:{to}"));
             }
